@@ -1,9 +1,11 @@
 #!/usr/bin/env python3
-"""tools/keepseed.py <ID> <k> <status> <detected_by> — copy a confirmed seeded change from /tmp/seed into /verif/seeded/<ID>-<k>/ with meta.json."""
+"""tools/keepseed.py <ID> <k> <status> <detected_by> [srcroot] [dstk] — copy a confirmed seeded change from /tmp/seed into /verif/seeded/<ID>-<k>/ with meta.json."""
 import sys, os, shutil, json, glob
 pid, k, status, detected = sys.argv[1:5]
-src = "/tmp/seed/%s/%s" % (pid, k)
-dst = "/verif/seeded/%s-%s" % (pid, k)
+srcroot = sys.argv[5] if len(sys.argv) > 5 else "/tmp/seed"
+dstk = sys.argv[6] if len(sys.argv) > 6 else k
+src = "%s/%s/%s" % (srcroot, pid, k)
+dst = "/verif/seeded/%s-%s" % (pid, dstk)
 os.makedirs(dst, exist_ok=True)
 for f in glob.glob(src + "/*"):
     if os.path.isfile(f): shutil.copy(f, dst)
@@ -13,7 +15,7 @@ meta = {
     "patch": "patch.diff",
     "demonstration": sorted(os.path.basename(f) for f in glob.glob(dst + "/*") if os.path.basename(f) not in ("patch.diff", "meta.json", "notes.md")),
     "needs_to_manifest": "see notes.md (written by the seeding sub-agent)",
-    "base_commit": "3e45851 (pristine snapshot)",
+    "base_commit": "3e45851 (pristine snapshot)" if srcroot == "/tmp/seed" else "round 2: /repo HEAD with the fix commits at the time of seeding (patch applies to the repaired tree)",
     "confirmed": "patch applies to /repo (git apply, --3way where my fix commits touch the same file), harness builds; sub-agent verified suite passes and demo fails-with/passes-without; check result below obtained with tools/seedtest.sh",
     "check_result": status,
     "detected_by": detected,
